@@ -19,14 +19,17 @@ theorem fixSkip_ge (st en : Array Int) (h) (i : Nat) : i ≤ fixSkip st en h i :
 
 /-- merge scan `while i < m - 1: if start[i+1] < end[i]: i += 1; newend = max(end[i-1], end[i])` -/
 def fixMerge (st en : Array Int) (h : st.size = en.size) (i : Nat) (hi : i < st.size) (newend : Int) :
-    { r : Nat × Int // i ≤ r.1 ∧ r.1 < st.size } :=
+    Nat × Int :=
   if h1 : i + 1 < st.size then
     if st[i+1] < en[i]'(h ▸ hi) then
-      let r := fixMerge st en h (i+1) h1 (max (en[i]'(h ▸ hi)) (en[i+1]'(h ▸ h1)))
-      ⟨r.1, by have := r.2; omega⟩
-    else ⟨(i, newend), by omega⟩
-  else ⟨(i, newend), by omega⟩
+      fixMerge st en h (i+1) h1 (max (en[i]'(h ▸ hi)) (en[i+1]'(h ▸ h1)))
+    else (i, newend)
+  else (i, newend)
 termination_by st.size - i
+
+theorem fixMerge_bounds (st en : Array Int) (h) (i : Nat) (hi : i < st.size) (newend : Int) :
+    i ≤ (fixMerge st en h i hi newend).1 ∧ (fixMerge st en h i hi newend).1 < st.size := by
+  fun_induction fixMerge st en h i hi newend <;> omega
 
 /-- the 1 µs trim: `if i < m - 1: if newend == start[i+1]: newend -= 1e-6` -/
 def fixTrim (st : Array Int) (i : Nat) (newend : Int) : Int :=
@@ -39,14 +42,14 @@ def fixLoop (st en : Array Int) (h : st.size = en.size) (i : Nat) (out : Array (
   let i1 := fixSkip st en h i
   if hi : i1 < st.size then
     let r := fixMerge st en h i1 hi (en[i1]'(h ▸ hi))
-    let newend := fixTrim st r.1.1 r.1.2
+    let newend := fixTrim st r.1 r.2
     let out' := if newend > st[i1] then out.push (st[i1], newend) else out
-    fixLoop st en h (r.1.1 + 1) out'
+    fixLoop st en h (r.1 + 1) out'
   else out
 termination_by st.size - i
 decreasing_by
   have h1 := fixSkip_ge st en h i
-  have h2 := (fixMerge st en h (fixSkip st en h i) hi (en[fixSkip st en h i]'(h ▸ hi))).2
+  have h2 := fixMerge_bounds st en h (fixSkip st en h i) hi (en[fixSkip st en h i]'(h ▸ hi))
   omega
 
 def jitfixIset (st en : Array Int) (h : st.size = en.size) : Array (Int × Int) :=
